@@ -88,7 +88,7 @@ const SHAPES: &[&str] = &[
 const GOOD_NAMES: [&str; 12] =
     ["a", "bar", "baz-2", "x_y", "_", "q--r", "Integer", "MUT", "hH", "pi2", "i_", "Jump-when"];
 
-fn name_cases(run: &mut Run) {
+fn name_cases(run: &mut Run, ctx: &Ctx) {
     let mut words: Vec<String> = Vec::new();
     for w in RESERVED {
         words.push(w.to_string());
@@ -113,6 +113,19 @@ fn name_cases(run: &mut Run) {
             true,
             None,
         );
+        // every accepted name must also survive print -> lex -> parse as a parameter name
+        if ok {
+            let k = w.len();
+            let ty = match k % 3 {
+                0 => PT::Scalar(k % 4),
+                1 => PT::Fixed(k % 4, (k % 5) as u64),
+                _ => PT::Var(k % 4),
+            };
+            let ret = if k % 2 == 0 { Some(k % 4) } else { None };
+            let sig = build_sig(ret, &[(ty, k % 2 == 1)], &[w.as_str()]);
+            run.count("name:roundtripped-in-signature");
+            sig_case(run, ctx, &sig, k % 4 == 0);
+        }
     }
 }
 
@@ -797,7 +810,7 @@ fn main() {
         return;
     }
     let mut run = Run::new(&args.out, header, "case", "failing", 600);
-    name_cases(&mut run);
+    name_cases(&mut run, &ctx);
     let sigs = signature_cases(&mut run, &ctx, &mut rng, args.thorough());
     let n_sig = run.evaluations;
     text_cases(&mut run, &mut rng, &sigs, if args.thorough() { 12000 } else { 1000 });
